@@ -454,7 +454,7 @@ class Rewriter:
             mask = _code_mask(t)
             # closures = occurrences of `|ident|` or `||` at code positions preceded by '(' or ','
             cands = []
-            for mm in re.finditer(r"(?<=[(,\s])\|\s*([A-Za-z_][A-Za-z_0-9]*(\s*,\s*[A-Za-z_][A-Za-z_0-9]*)*)?\s*\|", t):
+            for mm in re.finditer(r"(?<=[(,\s])\|\s*([A-Za-z_][A-Za-z_0-9]*(\s*,\s*[A-Za-z_][A-Za-z_0-9]*)*|\([^()|]*\))?\s*\|", t):
                 if mask[mm.start()] and t[mm.start():mm.start() + 2] != "||" or (mask[mm.start()] and mm.group(1) is None and t[mm.start():mm.end()].replace(" ", "") == "||" and re.search(r"[(,]\s*$", t[:mm.start()])):
                     cands.append(mm)
             if ordinal < 1 or ordinal > len(cands):
@@ -482,6 +482,9 @@ class Rewriter:
                 raise ExtractError("R18: cannot delimit closure body in %s" % self.key)
             body = t[mm.end():end]
             b = body.strip()
+            if mm.group(1) and mm.group(1).startswith("("):
+                # tuple pattern: the annotated header names the parameter t__, the pattern is bound by a let
+                b = "{ let %s = t__; %s }" % (mm.group(1), b)
             if b.startswith("{") and find_close(b, 0) == len(b) - 1:
                 newc = "%s %s" % (header, b)
             else:
